@@ -232,7 +232,7 @@ def main():
                 "engine": "pbt-runner",
                 "level_claimed": {"category": "exploration",
                                   "text": text + (" " + EXTRA[pid] if pid in EXTRA else "")
-                                  + " Checked against 160 seeded regressions and 80 benign rewrites (DESIGN.md "
+                                  + " Checked against 355 seeded regressions and 160 benign rewrites (DESIGN.md "
                                     "sections 10-11).",
                                   "design_ref": ref + ", §9-§11"},
                 "level_note": note,
@@ -267,8 +267,7 @@ def main():
                  "Hypothesis seed; exit 0 ok / 1 VIOLATION / 2 harness error. KNOWN_FINDINGS.txt lists "
                  "repaired defects (fixed:) and, if any, unrepaired ones (known:).",
     }
-    if not na:
-        del manifest["not_applicable"]
+    # an empty list says it explicitly: every listed property is claimed (DESIGN.md section 9)
     path = os.path.join(HERE, "MANIFEST.json")
     with open(path, "w", encoding="utf-8") as fh:
         json.dump(manifest, fh, indent=1)
